@@ -177,11 +177,18 @@ struct Case {
     file_route: bool,                // true: dictionaries written to files and named in the configuration (systemDict / userDict,
                                      // JapaneseDictionary::from_cfg); false: from_cfg_storage with in-memory storage
     rewrite: Vec<u8>,                // path rewrite plugins in configuration order: 0 JoinNumericPlugin, 1 JoinKatakanaOovPlugin
+    join_pos: Option<usize>,         // oovPOS of JoinKatakanaOovPlugin: None = POS of the first system word, Some(p) = a POS that an
+                                     // OOV provider registers (userPOS allow) and the system dictionary lacks
+}
+impl Case {
+    fn join_pos_fields(&self) -> Vec<String> {
+        pos_fields(self.join_pos.unwrap_or(self.sys[0].pos))
+    }
 }
 impl Case {
     fn plain(sys: Vec<Row>, plugins: Vec<Plug>, users: Vec<(bool, Vec<Row>)>) -> Case {
         let n = users.len();
-        Case { sys, plugins, users, dup: vec![None; n], file_route: false, rewrite: vec![] }
+        Case { sys, plugins, users, dup: vec![None; n], file_route: false, rewrite: vec![], join_pos: None }
     }
 }
 const REWRITE_NAMES: [&str; 2] = ["JoinNumeric", "JoinKatakanaOov"];
@@ -425,7 +432,23 @@ fn gen_case(rng: &mut Rng, nusers: usize) -> Case {
         // JoinNumericPlugin refuses to load unless the grammar knows the numeral POS: a system numeral
         sys.push(Row { surface: "7".into(), reading: "ナナ".into(), pos: NUM_POS, a: vec![], b: vec![], ws: vec![] });
     }
-    Case { sys, plugins, users, dup, file_route: rng.chance(1, 2), rewrite }
+    // the join plugin's POS may be one that exists only because an OOV provider registers it (providers are set up first)
+    let registered: Vec<usize> = {
+        let sys_has: Vec<usize> = sys.iter().map(|r| r.pos).collect();
+        let mut v = vec![];
+        for p in &plugins {
+            if p.mode == 0 {
+                for q in &p.pos {
+                    if !sys_has.contains(q) && !v.contains(q) {
+                        v.push(*q);
+                    }
+                }
+            }
+        }
+        v
+    };
+    let join_pos = if !registered.is_empty() && rng.chance(1, 2) { Some(*rng.pick(&registered)) } else { None };
+    Case { sys, plugins, users, dup, file_route: rng.chance(1, 2), rewrite, join_pos }
 }
 
 fn config_json(c: &Case) -> String {
@@ -459,7 +482,7 @@ fn config_value(c: &Case, with_rewrite: bool) -> Value {
                 rw.push(json!({"class": "com.worksap.nlp.sudachi.JoinNumericPlugin", "enableNormalize": false}));
             } else {
                 // the POS of the first system word always exists in the grammar
-                rw.push(json!({"class": "com.worksap.nlp.sudachi.JoinKatakanaOovPlugin", "oovPOS": pos_fields(c.sys[0].pos), "minLength": 3}));
+                rw.push(json!({"class": "com.worksap.nlp.sudachi.JoinKatakanaOovPlugin", "oovPOS": c.join_pos_fields(), "minLength": 3}));
             }
         }
         v["pathRewritePlugin"] = Value::Array(rw);
@@ -539,7 +562,7 @@ fn case_json(c: &Case) -> Value {
     json!({"kind": "c12", "sys": rows(&c.sys),
            "plugins": c.plugins.iter().map(|p| json!({"kind": p.kind, "provider": KIND_NAMES[p.kind as usize], "mode": p.mode, "userPOS": MODE_NAMES[p.mode as usize], "pos": p.pos, "cats": p.cats, "costs": p.costs, "kata": [p.kata.0, p.kata.1, p.kata.2 > 0, p.kata.2]})).collect::<Vec<_>>(),
            "users": c.users.iter().map(|(cf, rs)| json!({"configured": cf, "rows": rows(rs)})).collect::<Vec<_>>(),
-           "same_file_as": c.dup, "file_route": c.file_route, "rewrite": c.rewrite,
+           "same_file_as": c.dup, "file_route": c.file_route, "rewrite": c.rewrite, "join_pos": c.join_pos,
            "rewrite_plugins": c.rewrite.iter().map(|k| REWRITE_NAMES[*k as usize]).collect::<Vec<_>>(),
            "pos_pool": (0..NPOOL).map(pos_csv).collect::<Vec<_>>()})
 }
@@ -585,6 +608,7 @@ fn case_from_json(v: &Value) -> Case {
         dup: v["same_file_as"].as_array().map(|a| a.iter().map(|x| x.as_u64().map(|y| y as usize)).collect()).unwrap_or_else(|| vec![None; v["users"].as_array().unwrap().len()]),
         file_route: v["file_route"].as_bool().unwrap_or(false),
         rewrite: v["rewrite"].as_array().map(|a| a.iter().map(|x| x.as_u64().unwrap() as u8).collect()).unwrap_or_default(),
+        join_pos: v["join_pos"].as_u64().map(|x| x as usize),
     }
 }
 
@@ -1167,7 +1191,7 @@ fn run_case(sink: &mut Sink, c: &Case, verbose: bool) {
                         if oov != (did == -1) {
                             fail(format!("merged token {:?}: is_oov {} but dictionary {}", surf, oov, did), "");
                         }
-                        let join_pos = pos_fields(c.sys[0].pos);
+                        let join_pos = c.join_pos_fields();
                         if pos != join_pos && pos != inside[0].3 {
                             fail(format!("merged token {:?} reports POS {:?}: neither the join plugin's POS nor the POS of its first part", surf, pos), "");
                         }
@@ -1320,7 +1344,7 @@ pub fn run(args: &Args) {
             for k in 1..n1 {
                 dup[k] = Some(0);
             }
-            let c = Case { sys: sys.clone(), plugins: vec![Plug::simple(0, 0)], users, dup, file_route, rewrite: vec![] };
+            let c = Case { sys: sys.clone(), plugins: vec![Plug::simple(0, 0)], users, dup, file_route, rewrite: vec![], join_pos: None };
             run_case(&mut sink, &c, false);
             sink.tag("directed_dictionary_listed_again");
         }
@@ -1332,7 +1356,7 @@ pub fn run(args: &Args) {
         let sys = vec![mk("s0x", 0), mk("s1x", 1), mk("ピサ", 1), mk("7", NUM_POS)];
         let u1 = vec![mk("u1w0", 5), mk("カア", 7)];
         let u2 = vec![mk("u2w0", 0), mk("カイ", 2)];
-        let c = Case { sys, plugins: vec![Plug::simple(0, 0)], users: vec![(false, u1), (true, u2)], dup: vec![None, None], file_route: false, rewrite };
+        let c = Case { sys, plugins: vec![Plug::simple(0, 0)], users: vec![(false, u1), (true, u2)], dup: vec![None, None], file_route: false, rewrite, join_pos: None };
         run_case(&mut sink, &c, false);
         sink.tag("directed_katakana_join");
     }
@@ -1369,6 +1393,25 @@ pub fn run(args: &Args) {
         let c = Case::plain(sys, vec![Plug::simple(0, 0)], vec![(configured, u1), (!configured, u2), (configured, u3)]);
         run_case(&mut sink, &c, false);
         sink.tag("directed_id_like_surfaces_and_subsets");
+    }
+    // directed: the join plugin's oovPOS is a POS that only an OOV provider (Simple / Regex / MeCab, userPOS allow) brings into the
+    // grammar: the configuration must load and the glued katakana run must report that POS
+    for kind in 0..3u8 {
+        for file_route in [false, true] {
+            let mk = |s: &str, pos: usize| Row { surface: s.into(), reading: format!("ヨ{}", s), pos, a: vec![], b: vec![], ws: vec![] };
+            let sys = vec![mk("s0x", 0), mk("s1x", 1), mk("ピサ", 1), mk("7", NUM_POS)];
+            let target = Plug { kind, mode: 0, pos: vec![9], cats: vec![1], costs: vec![555], kata: (false, true, 0) };
+            let mut plugins = vec![Plug::simple(0, 1)];
+            if kind == 0 {
+                plugins = vec![Plug::simple(9, 0)];
+            } else {
+                plugins.push(target);
+            }
+            let u1 = vec![mk("u1w0", 9), mk("カア", 7)];
+            let c = Case { sys, plugins, users: vec![(file_route, u1)], dup: vec![None], file_route, rewrite: vec![0, 1], join_pos: Some(9) };
+            run_case(&mut sink, &c, false);
+            sink.tag("directed_join_pos_registered_by_oov_provider");
+        }
     }
     // directed: 14 user dictionaries accepted, the 15th rejected
     for n in [14usize, 15] {
